@@ -65,13 +65,24 @@ func (d *discardProc) InsertRevokedCertificate(e *crlreader.CRLEntry) error {
 func (d *discardProc) UpdateExtendedMetaInfo(*crlreader.ExtendedCRLMetaInfo) error  { return nil }
 func (d *discardProc) UpdateSignatureCertificate(*core.CertificateChainEntry) error { return nil }
 
+// c17EntryIssuerExt: when set, every entry of the lists c17Doc builds carries a (non-critical) certificateIssuer
+// extension which names the CRL issuer itself - what an indirect-CRL tool writes for every entry.
+var c17EntryIssuerExt bool
+
 func c17Doc(n int, pemEnc bool) []byte {
 	p := world.Std()
 	s := world.SimpleCRL(p.CA, 1)
 	base := new(big.Int).Lsh(big.NewInt(1), 70)
 	t := vsched.Epoch.Add(-time.Hour)
+	var exts []pkix.Extension
+	if c17EntryIssuerExt {
+		// GeneralNames { directoryName [4] EXPLICIT Name }
+		dn, _ := asn1.Marshal(asn1.RawValue{Class: 2, Tag: 4, IsCompound: true, Bytes: p.CA.Cert.RawSubject})
+		gn, _ := asn1.Marshal(asn1.RawValue{Class: 0, Tag: 16, IsCompound: true, Bytes: dn})
+		exts = []pkix.Extension{{Id: asn1.ObjectIdentifier{2, 5, 29, 29}, Value: gn}}
+	}
 	for i := 0; i < n; i++ {
-		s.Entries = append(s.Entries, world.RevEntry{Serial: new(big.Int).Add(base, big.NewInt(int64(i))), Date: t})
+		s.Entries = append(s.Entries, world.RevEntry{Serial: new(big.Int).Add(base, big.NewInt(int64(i))), Date: t, Exts: exts})
 	}
 	d := s.DER()
 	if pemEnc {
@@ -717,6 +728,14 @@ func RunC17(tier string, args []string) int {
 	var growths []int64
 	for _, n := range diskN {
 		growths = append(growths, c17Disk(chk, n))
+		if n == diskN[0] {
+			// the same path for a list in which every entry names its issuer
+			c17EntryIssuerExt = true
+			growths = append(growths, c17Disk(chk, n/2))
+			c17EntryIssuerExt = false
+			evals++
+			distinct++
+		}
 		evals++
 		distinct++
 	}
